@@ -112,7 +112,7 @@ def dict_record(rng, w, form, items, vw, norders=3, with_hash=False, vform='uint
                 break
             hashes.append(list(c.hash))
             cell = cell or c
-        if form == 'int' and len(items) >= 2 and cell is not None:
+        if form == 'int' and len(items) >= 2 and cell is not None and w <= 900:      # (wider: the intermediate maps need not fit a cell)
             # the same map grown in two steps on ONE object: serialise, add the last entry through the public set_int_key,
             # serialise again (also after overwriting an entry with a wrong value and putting the right one back)
             hm = new_map()
@@ -158,8 +158,19 @@ def dict_record(rng, w, form, items, vw, norders=3, with_hash=False, vform='uint
 def key_sets(rng, w, tier):
     top = (1 << w) - 1
     if w > 900:
-        # a leaf must hold label + value in 1023 bits: at this width only keys whose labels compress (hml_same) are storable
-        return [[0], [top], [0, top]]
+        # a leaf must hold label + value in 1023 bits: at this width only keys whose labels compress (hml_same) are storable ...
+        sets = [[0], [top], [0, top]]
+        # ... or that share a long prefix: a fork holds no value, so its label may fill the cell to the last bit
+        # (hml_long: 2 + 10 + n bits; n = 1011 is exactly 1023 bits; 1010 and the uniform prefixes next to it)
+        for n in (1011, 1010, 1009):
+            if w > n:
+                pfx = rng.getrandbits(n) | (1 << (n - 1)) | 1
+                pfx &= ~2                                 # not all-equal: the long form is the only one that fits
+                rest = w - n - 1
+                lo = (pfx << (rest + 1)) | (0 if rest == 0 else ((1 << rest) - 1))
+                hi = (pfx << (rest + 1)) | (1 << rest)
+                sets.append([lo, hi])
+        return sets
     sets = [[0], [top], [rng.randint(0, top)]]
     if w >= 2:
         base = rng.randint(0, top >> 1)
@@ -188,7 +199,7 @@ def generate(tier, seed, ctx):
     for w in (1, 8, 267):
         out.append(dict_record(rng, w, 'int', [], 8))
     for rep in range(1 if q else 12):
-        for w in (1, 2, 8, 32, 64, 256, 267, 900, 1023):
+        for w in (1, 2, 8, 32, 64, 256, 267, 900, 1012, 1023):
             for ks in key_sets(rng, w, tier):
                 vw = rng.choice([8, 16, 32])
                 items = [(k, big(k), rng.getrandbits(vw)) for k in ks]
